@@ -64,6 +64,10 @@ CHECKS = {
             'symbolic selectors (request mix with equal keys and unknown actions, matching / error / unrelated / unknown replies, caller time-outs, '
             'final disconnect or shutdown) against an independent model of the pending-request table; pre-emption inside an iteration and real thread '
             'shutdown are not claimed', '5/C11'),
+    'C12': ('model_checking', 'a real SecopClient initialised from the real description processes message sequences (kinds chosen by symbolic selectors, '
+            'symbolic values and time stamps vs. a symbolic now) one receive-loop iteration at a time: cache == import of the last message, time stamp '
+            'never in the future, callbacks once per message per level, registration reports the cached state; end-to-end composition without sockets '
+            'with symbolic values through client export -> real dispatcher -> fake driver -> node export -> client import', '5/C12'),
 }
 NOT_YET = 'check not built yet in this round (planned per DESIGN.md section 5); not claimed until its harness runs clean'
 NOT_APPLICABLE = {}
